@@ -344,8 +344,17 @@ def required(m, tier):
     return out[:6]
 
 
+def path_with_history(pterm):
+    """build a path the way a program with a history would: the unmodified path has already been
+    compared (and hashed into whatever the library may cache) before modifiers are derived"""
+    import valida.datapath as DP
+    base = DP.DataPath(*[build.part_obj(p) for p in pterm["parts"]])
+    base == DP.DataPath(*[build.part_obj(p) for p in pterm["parts"]])  # noqa: B015  (an earlier comparison)
+    return build.apply_mods(base, pterm)
+
+
 def builder(kind):
-    return {"cond": build.cond_obj, "part": build.part_obj, "path": build.path_obj, "rule": build.rule_obj,
+    return {"cond": build.cond_obj, "part": build.part_obj, "path": path_with_history, "rule": build.rule_obj,
             "schema": build.schema_obj}[kind]
 
 
@@ -441,6 +450,11 @@ def run(case, ctx):
         if by != bx or xt != commuter(kind)(xt):
             ctx.mark_nontrivial((repr(xt), repr(yt)))
             ctx.sample({"kind": kind, "atom": atom, "x": xt, "y": yt, "x==y": eqs.get("changed")}, cap=5)
+    # equality does not depend on what the objects have been used for in the meantime
+    for name, (a, b) in pairs.items():
+        ok1, e1 = call(lambda: a == b)
+        if ok1 and e1 != eqs.get(name):
+            ctx.violate(f"C14/eq-changed-after-use/{kind}", f"{name}: == was {eqs.get(name)} before the objects were used and {e1} after\n a={a!r}\n b={b!r}")
     for name, detail in mon.CONTRACTS.take():
         ctx.violate(f"C14/contract:{name}", detail)
     ctx.count("kind:" + kind)
